@@ -98,17 +98,23 @@ body.append(f"""
 
 The counterpart experiment (`tools/harmless_prompt.py`, `tools/harmless_matrix.py`, kept under `/verif/harmless/<id>/`
 with `patch.diff`, `probe.py`, `meta.json`): fresh sub-agents, again given only a property's text and a scratch
-worktree, produced {len(H)} realistic refactorings of 15-80 changed lines each after which the package behaves the same
+worktree, produced {len(H) - 1} realistic refactorings (plus one by the maintainer, C18z) of 15-80 changed lines each after which the package behaves the same
 for every input - kind A structural (helper extraction, renamed locals, merged branches, `assert` <-> `raise`,
 comprehensions; results bit-identical) and kind B numerically equivalent (another association or library route; results
 equal up to rounding). Each comes with a probe script whose recorded outputs (values as float hex, shapes, dtypes,
 exception classes, mutation and sharing) are identical on both trees (kind B: within 1e-12). A check that prints a
 VIOLATION line on such a tree raises an alarm on code where the property holds. Outcome on the current tree (quick tier,
-VERIF_SEED 0 and 1): every check exits 0. Four structural refactorings (C09h, C10h, C11h, C18h) move anchored statements
+VERIF_SEED 0 and 1): every check exits 0 (the table shows the state after the repairs described below). Four structural refactorings (C09h, C10h, C11h, C18h) move anchored statements
 into helpers or rename the variables the translators look for; before session 5 they ended in `VIOLATION …
 no-failing-input-found` and, through the shared driver, so did all the other checks; now the pinned definitions are used,
 the correspondence runs at the thorough size and agrees, and the check prints an `ANCHOR-LOST (advisory)` line and exits 0
-(4.2). They are kept as regression cases for the translators.
+(4.2). They are kept as regression cases for the translators. Round 4 (session 6: C03z, C06z, C07z, C16z, C19z, C20z by sub-agents, C18z by the
+maintainer) was run with the drift detector on AND off; five were quiet as built; C20z (the generators draw their unit variates with
+`np.random.random_sample(size)` instead of `np.random.uniform(0, 1, size)`: the same doubles of the global stream) ALARMED: the C20 harness
+recorded draws through one function name, so the model saw no draws. No property says which function of the global stream is called;
+`lib.unit_spellings` now routes `random_sample` / `random` / `ranf` / `sample` / `rand` through whatever stand-in a family installs for
+`np.random.uniform` (C06, C13, C18, C20; the C10 trace proxy likewise), and C18z - the same respelling in every algorithm, sampler and
+generator - is kept as the regression case for it (it alarmed C10 as built). A switch to a private generator is still seen: nothing is recorded.
 
 | id | property | kind | files | refactoring | check |
 |---|---|---|---|---|---|""")
